@@ -171,6 +171,20 @@ def main():
                 if sysname:
                     apply_symetry_on_elast_data(live[i][1].elast_data, {"system": sysname})
                 obs_event(i, "static_table", observe(live[i][1], "static_table"))
+            elif name == "CliFill":
+                # `cij fill -s SYSTEM TABLE` in a child process (same hash seed): what it prints, byte for byte
+                c = act[1]
+                table = str(Path(job["datasets"][c]).parent / "elast.dat")
+                r = subprocess.run([sys.executable, "-W", "ignore", "-m", "cij.cli.cij", "fill", "-s", job["systems"][c], table], capture_output=True,
+                                   env=dict(os.environ))
+                digest = h(r.stdout) if r.returncode == 0 else "FAILED:" + r.stderr.decode(errors="replace")[-200:]
+                if job["mode"] == "ref":
+                    emit(ev="Ref", cfg=c, q="cli_fill", digest=digest, shared=shared_digest())
+                else:
+                    cid = f"fill{c}{len(emitted_cli)}"
+                    emitted_cli.append(cid)
+                    emit(ev="Construct", id=cid, cfg=c, shared=shared_digest())
+                    emit(ev="Observe", id=cid, q="cli_fill", digest=digest, shared=shared_digest())
             elif name == "CliRun":
                 c = act[1]
                 with tempfile.TemporaryDirectory(prefix="cijverif.cli.") as t:
